@@ -34,9 +34,28 @@ func (v *c06) OnState(x *Ctx, s *St) {
 			x.Violate("nobody-to-act", "betting round is waiting for an action but nobody is offered one", "an offered action", "none")
 		}
 	}
+	if ev != "RoundStarted" {
+		for _, p := range gs.Players {
+			if len(p.AllowedActions) > 0 {
+				x.Violate("two-things-awaited:"+ev, fmt.Sprintf("the hand waits at %s (for %s) but seat %d is offered %v at the same time", ev, WaitPoints[ev], p.Idx, p.AllowedActions), "no player actions offered", fmt.Sprint(p.AllowedActions))
+				break
+			}
+		}
+	}
 	if ev == "GameClosed" {
 		v.closedAcceptsNothing(x, s)
 	}
+}
+
+// ExtraOps: "whatever the players choose" - outside a betting round the
+// players can still try their actions; any that the engine accepts is part of
+// the play graph (and a source of endless plays if it does not advance the hand).
+func (v *c06) ExtraOps(x *Ctx, s *St) []Op {
+	ev := s.GS.Status.CurrentEvent
+	if ev == "RoundStarted" || ev == "GameClosed" {
+		return nil
+	}
+	return []Op{{Kind: "Pass", Seat: -1}, {Kind: "Check", Seat: -1}, {Kind: "Fold", Seat: -1}, {Kind: "Call", Seat: -1}, {Kind: "Allin", Seat: -1}, {Kind: "Bet", Arg: 1, Seat: -1}, {Kind: "Raise", Arg: 2, Seat: -1}}
 }
 
 func (v *c06) closedAcceptsNothing(x *Ctx, s *St) {
